@@ -2071,6 +2071,27 @@ func batchVals(h bsiH, shape, n int, seed uint64) []*big.Int {
 				out = append(out, rndBig(r, lo, hi))
 			}
 		}
+	case 6: // the complete value space of the index's current width, both signs (a "cube"
+		// with no fixed bit at all), when that is at most 1024 values
+		bc := h.bitCount()
+		if bc >= 1 && bc <= 9 {
+			fx, _, _ := h.fixedRange()
+			for x := -(int64(1) << uint(bc)); x < int64(1)<<uint(bc); x++ {
+				if x < 0 && h.nonNeg() {
+					continue
+				}
+				// an auto-sized index: whatever fits the width it has grown to; a fixed one: its declared range
+				if v := big.NewInt(x); !fx || inBig(v, lo, hi) {
+					out = append(out, v)
+				}
+			}
+			for i := len(out) - 1; i > 0; i-- {
+				j := r.Intn(i + 1)
+				out[i], out[j] = out[j], out[i]
+			}
+		} else {
+			out = append(out, pick())
+		}
 	case 5: // relatives of present values under byte-string encodings (sign tags, prefixes):
 		// whatever key a lookup structure derives from a value, two values must not share it
 		tags := []byte{'-', '+', 0x00, 0x01, 0x80, 0xFF, '0', '1', 'n', 'p'}
@@ -2112,7 +2133,7 @@ func batchVals(h bsiH, shape, n int, seed uint64) []*big.Int {
 	return out
 }
 
-const numBatchShapes = 6
+const numBatchShapes = 7
 
 // batchPath names the implementation path the 64-bit BatchEqual family takes.
 func batchPath64(bc int, api int, vals []*big.Int) string {
